@@ -567,7 +567,7 @@ def gen_Homogeneous_apply {d : Nat} {α : Type} (self : HT d α) (x : Vec d) : O
 def gen_tcoords_to_image_coords (imageshape : Rat × Rat) : Option (HT 2 Unit) :=
   (ctor_Homogeneous_default (α := Unit) (m3 (1) (0) (0) (0) (-(1)) (1) (0) (0) (1))).bind fun invertunity0 =>
     (ctor_Homogeneous_default (α := Unit) (m3 (0) (1) (0) (1) (0) (0) (0) (0) (1))).bind fun flipxyyx0 =>
-      some ((HT.composeBeforeH (HT.composeBeforeH invertunity0 flipxyyx0) (scaleFactory (shapeMinusOne imageshape) : HT 2 Unit)))
+      some ((HT.composeBeforeH (HT.composeBeforeH invertunity0 flipxyyx0) (scaleFactory (vsubOne (shapeVec imageshape)) : HT 2 Unit)))
 
 def gen_image_coords_to_tcoords (imageshape : Rat × Rat) : Option (HT 2 Unit) :=
   (gen_tcoords_to_image_coords imageshape).bind fun t_0 =>
